@@ -104,6 +104,14 @@ def finalise(sc):
         steps.append({"a": "Law", "k": "assoc", "p": a, "q": b, "t": c, "vm": False})
     for a in (n,) if padded else range(1, n + 1):
         steps.append({"a": "Law", "k": "idem", "p": a, "q": 1, "t": 1, "vm": False})
+    # the same laws through verified_merge (not on padded replicas that are not open: each verified merge there
+    # checks ~1021 signatures)
+    # (every second scenario: a verified merge checks one signature per operation of its source)
+    if not is_heavy(sc) and sc["id"] % 2 == 0:
+        steps.append({"a": "Law", "k": "comm", "p": 1, "q": 2, "t": 1, "vm": True})
+        if not padded:
+            steps.append({"a": "Law", "k": "assoc", "p": 3, "q": 1, "t": 2, "vm": True})
+        steps.append({"a": "Law", "k": "idem", "p": 2 if padded else n, "q": 1, "t": 1, "vm": True})
     sc = dict(sc)
     sc["steps"] = steps
     return sc
@@ -225,7 +233,7 @@ def validate_chunks(trace, w, jobs=4):
 
 
 def describe(e):
-    a = {k: e[k] for k in ("r", "s", "o", "cs", "sig", "k", "a", "b", "c") if k in e}
+    a = {k: e[k] for k in ("r", "s", "o", "cs", "sig", "k", "a", "b", "c", "vm", "kind") if k in e}
     return "%s(%s) -> %s" % (e["ev"], ",".join("%s=%s" % kv for kv in a.items()), e.get("res", ""))
 
 
@@ -379,13 +387,29 @@ def run(prop, tier, replay=None):
     if not replay:
         v.cov["tlc_action_coverage"] = {a: list(act_cov[a]) for a in MODEL_ACTIONS}
         v.cov["tlc_scenarios_generated"] = n_generated
-        missing = [a for a in MODEL_ACTIONS + ["Law"] if ev_kinds.get(a, 0) == 0]
+        missing = [a for a in MODEL_ACTIONS + ["Law", "Tampered", "BaseProbe"] if ev_kinds.get(a, 0) == 0]
+        laws_vm = {}
+        for e in events:
+            if e["ev"] == "Law" and e.get("vm"):
+                laws_vm[e["k"]] = laws_vm.get(e["k"], 0) + 1
+        v.cov["laws_through_verified_merge"] = laws_vm
+        missing += ["Law/%s/vm" % k for k in ("comm", "assoc", "idem") if laws_vm.get(k, 0) == 0]
+        probes = {}
+        for e in events:
+            if e["ev"] in ("Tampered", "BaseProbe"):
+                probes["%s/%s" % (e["ev"], e["kind"])] = probes.get("%s/%s" % (e["ev"], e["kind"]), 0) + 1
+        v.cov["probes_by_kind"] = probes
+        missing += [k for k in ("Tampered/readdress", "Tampered/readdress_owner", "BaseProbe/perms_add", "BaseProbe/meta", "BaseProbe/owner")
+                    if probes.get(k, 0) == 0]
+        v.cov["foreign_owner_bases"] = sum(1 for s in run_of.values() if any(b["addr"] == 3 for b in s["bases"]))
         if missing:
             raise ToolError("actions never exercised on the real code: %s" % missing)
     v.assumptions = [
         "unverified merge() is only ever given honest replicas as its source (its documentation says it does not verify); "
         "hand-made replicas are only presented through verified_merge()",
         "'received' in the convergence clause = delivered and accepted (an operation refused with TooManyEntries was not received)",
+        "a base register is 'owner-signed' only when the signature presented with it is the owner's signature over exactly its bytes (address and "
+        "permissions); the altered bases probed are the replica's genuine base with permissions, meta or owner swapped, signature kept",
         "the model is explored exhaustively to a bounded depth; the scenarios replayed on the code are a seeded sample of the "
         "model's behaviours plus seeded random histories (exhaustive=false)",
         "closure: a state must pass verify() and be accepted as the source of a verified_merge by every replica of the register whose "
